@@ -74,10 +74,6 @@ theorem C11_duration_jobs (c : Cfg) (o0 : FObs) (hw0 : o0.WF) (hft : FT.jobs ∈
 
 /-! ## RemainingOperationsObserver, job level -/
 
-/-- specification: the number of unscheduled operations of each job -/
-def remJobsSpec (I : Instance) (s : State) : List Int :=
-  (List.range I.length).map fun j => (((unscheduledPure I s).filter fun r => r.1 == j).length : Int)
-
 theorem remJobsSpec_dispatch {I : Instance} {s s' : State} {j p m : Nat} {op : Op} (hwf : WF I s)
     (hd : DispSpec I s s' j p m op) :
     remJobsSpec I s' = addAt (remJobsSpec I s) j (-1) := by
@@ -141,10 +137,6 @@ theorem C11_remaining_jobs (c : Cfg) (fts0 : List FT) (hft : FT.jobs ∈ fts0) :
       exact C11_remaining_jobs c fts0 hft h s' _ hc' hv h2 (h3.trans hfts) h1
 
 /-! ## IsScheduledObserver, operation level -/
-
-/-- specification: 1 for scheduled operations, 0 otherwise -/
-def schedOpsSpec (I : Instance) (s : State) : List Int :=
-  (allOps I).map fun r => if isScheduled s r then 1 else 0
 
 theorem schedOpsSpec_dispatch {I : Instance} {s s' : State} {j p m : Nat} {op : Op} (hwf : WF I s)
     (hd : DispSpec I s s' j p m op) :
